@@ -65,11 +65,48 @@ contract(BE + '.fix_betas', 'C03',
          modifies=['self.initValue', 'self.status', 'self.name'],
          ensures={'named_is_fixed_at_value': 'implies(old(self.name) in beta_values, self.initValue == beta_values[old(self.name)] and self.status == 1)',
                   'others_untouched': 'implies(old(self.name) not in beta_values, self.initValue == old(self.initValue) and '
-                                      'self.status == old(self.status) and self.name == old(self.name))'})
+                                      'self.status == old(self.status) and self.name == old(self.name))',
+                  # round 3 (m4): the new NAME of a fixed parameter (the by-name matching of later calls depends on it):
+                  # prefix + old name + suffix, each part only when given
+                  'name_kept_without_prefix_and_suffix':
+                      'implies(old(self.name) in beta_values and prefix is None and suffix is None, self.name == old(self.name))',
+                  'name_prefixed':
+                      "implies(old(self.name) in beta_values and prefix is not None and suffix is None, "
+                      "same(self.name, f'{prefix}{old(self.name)}'))",
+                  'name_suffixed':
+                      "implies(old(self.name) in beta_values and prefix is None and suffix is not None, "
+                      "same(self.name, f'{old(self.name)}{suffix}'))",
+                  'name_prefixed_then_suffixed':
+                      "implies(old(self.name) in beta_values and prefix is not None and suffix is not None, "
+                      "same(self.name, f'{c03m4_pref}{suffix}'))".replace('c03m4_pref', 'f"{prefix}{old(self.name)}"')},
+         replay="""
+import warnings; warnings.simplefilter('ignore')
+from biogeme.expressions import Beta
+bad = []
+for pre, suf, want in ((None, None, 'b'), ('p_', None, 'p_b'), (None, '_s', 'b_s'), ('p_', '_s', 'p_b_s')):
+    b = Beta('b', 0.5, None, None, 0)
+    b.fix_betas({'b': 3.0, 'zz': 1.0}, prefix=pre, suffix=suf)
+    if (b.name, b.initValue, b.status) != (want, 3.0, 1):
+        bad.append((pre, suf, b.name, b.initValue, b.status))
+    o = Beta('other', 0.5, None, None, 0)
+    o.fix_betas({'b': 3.0}, prefix=pre, suffix=suf)
+    if (o.name, o.initValue, o.status) != ('other', 0.5, 0):
+        bad.append(('other', pre, suf, o.name, o.initValue, o.status))
+violated = bool(bad)
+detail = f'(prefix, suffix, name, value, status) after fix_betas: {bad}'
+""")
 
 contract(BE + '.dict_of_elementary_expression', ['C03', 'C12'], modifies=[], returns='dict[str, Any]',
          types={'the_type': 'Any'},
-         ensures={'only_itself': "forall(lambda x: implies(x in result, x == self.name and result[x] is self), ty='str')"})
+         ensures={'only_itself': "forall(lambda x: implies(x in result, x == self.name and result[x] is self), ty='str')",
+                  # round 3 (m4): WHEN the parameter is reported - every kind, free iff status 0, fixed iff status != 0
+                  # (the sorted-name numbering of IdManager.prepare is built from these dictionaries: a Beta reported
+                  # under the wrong kind, or under no kind, is numbered in the wrong table / not at all)
+                  'reported_iff_kind_matches_status':
+                      "(self.name in result) == (the_type == TypeOfElementaryExpression.BETA or "
+                      "(the_type == TypeOfElementaryExpression.FREE_BETA and self.status == 0) or "
+                      "(the_type == TypeOfElementaryExpression.FIXED_BETA and self.status != 0))",
+                  'at_most_itself': 'len(result) <= 1'})
 
 # K7: dictionary -> list in the order of the sorted names
 contract(BG + '.beta_values_dict_to_list', 'C03',
